@@ -4,6 +4,58 @@ Import ListNotations.
 Local Open Scope string_scope.
 Local Open Scope Z_scope.
 Definition stale_sites : list (string * string * string * string * Z) := [
+  ("happysimulator/components/advertising.py", "Advertiser.start_events", "event_time", "time=Instant.from_seconds(self.evaluation_interval)", 0);
+  ("happysimulator/components/behavior/agent.py", "Agent.schedule_first_heartbeat", "event_time", "time=start_time + self.heartbeat_interval", 0);
+  ("happysimulator/components/behavior/stimulus.py", "broadcast_stimulus", "event_time", "time=t; t := _to_instant(time)", 0);
+  ("happysimulator/components/behavior/stimulus.py", "targeted_stimulus", "event_time", "time=t; t := _to_instant(time)", 0);
+  ("happysimulator/components/behavior/stimulus.py", "influence_propagation", "event_time", "time=t; t := _to_instant(time)", 0);
+  ("happysimulator/components/client/client.py", "Client._send_request.on_complete", "event_time", "time=finish_time", 0);
+  ("happysimulator/components/client/pooled_client.py", "PooledClient._send_request.on_complete", "event_time", "time=finish_time", 0);
+  ("happysimulator/components/datastore/cache_warming.py", "CacheWarmer.start_warming", "event_time", "time=Instant.Epoch", 0);
+  ("happysimulator/components/datastore/soft_ttl_cache.py", "SoftTTLCache.get", "stale_now", "event from self._maybe_start_refresh() kept before a later yield", 0);
+  ("happysimulator/components/deployment/rolling_deployer.py", "RollingDeployer._run_health_check.on_complete", "event_time", "time=finish_time", 0);
+  ("happysimulator/components/industrial/appointment.py", "AppointmentScheduler.start_events", "event_time", "time=Instant.from_seconds(t)", 0);
+  ("happysimulator/components/industrial/breakdown.py", "BreakdownScheduler.start_event", "event_time", "time=Instant.from_seconds(ttf); ttf := random.expovariate(1.0 / self.mean_time_to_failure)", 0);
+  ("happysimulator/components/industrial/gate_controller.py", "GateController.start_events", "event_time", "time=Instant.from_seconds(open_at)", 0);
+  ("happysimulator/components/industrial/gate_controller.py", "GateController.start_events", "event_time", "time=Instant.from_seconds(close_at)", 0);
+  ("happysimulator/components/industrial/perishable_inventory.py", "PerishableInventory.start_event", "event_time", "time=Instant.from_seconds(self.spoilage_check_interval_s)", 0);
+  ("happysimulator/components/industrial/perishable_inventory.py", "PerishableInventory._handle_spoilage_check", "event_time", "time=Instant.from_seconds(now_s + self.spoilage_check_interval_s); now_s := now.to_seconds()", 0);
+  ("happysimulator/components/industrial/shift_schedule.py", "ShiftedServer._schedule_next_shift", "event_time", "time=Instant.from_seconds(next_t); next_t := self.schedule.next_transition_after(current_s)", 0);
+  ("happysimulator/components/load_balancer/health_check.py", "HealthChecker._check_backend.on_complete", "event_time", "time=finish_time", 0);
+  ("happysimulator/components/load_balancer/load_balancer.py", "LoadBalancer._forward_request.on_complete", "event_time", "time=finish_time", 0);
   ("happysimulator/components/messaging/message_queue.py", "MessageQueue._deliver_message", "stale_now", "Event(time=self._clock.now if self._clock else now) name now bound before a yield", 0);
-  ("happysimulator/components/server/async_server.py", "AsyncServer._on_cpu_complete", "stale_now", "events in 'result_events' stamped in the enclosing function, emitted by nested generator io_wrapper after a yield", 0)
+  ("happysimulator/components/messaging/message_queue.py", "MessageQueue.schedule_redelivery", "event_time", "time=redelivery_time; redelivery_time := Instant.from_seconds(now.to_seconds() + self._redelivery_delay)", 0);
+  ("happysimulator/components/microservice/api_gateway.py", "APIGateway._forward_request.on_complete", "event_time", "time=finish_time", 0);
+  ("happysimulator/components/microservice/idempotency_store.py", "IdempotencyStore._forward.on_complete", "event_time", "time=finish_time", 0);
+  ("happysimulator/components/microservice/saga.py", "Saga._execute_step.on_complete", "event_time", "time=finish_time", 0);
+  ("happysimulator/components/microservice/saga.py", "Saga._execute_compensation.on_complete", "event_time", "time=finish_time", 0);
+  ("happysimulator/components/microservice/sidecar.py", "Sidecar._forward_request.on_complete", "event_time", "time=finish_time", 0);
+  ("happysimulator/components/rate_limiter/inductor.py", "Inductor._forward", "event_time", "time=now", 0);
+  ("happysimulator/components/rate_limiter/inductor.py", "Inductor._ensure_poll_scheduled", "event_time", "time=poll_time; poll_time := now + wait", 0);
+  ("happysimulator/components/rate_limiter/rate_limited_entity.py", "RateLimitedEntity._forward", "event_time", "time=now", 0);
+  ("happysimulator/components/rate_limiter/rate_limited_entity.py", "RateLimitedEntity._ensure_poll_scheduled", "event_time", "time=poll_time; poll_time := now + wait", 0);
+  ("happysimulator/components/resilience/bulkhead.py", "Bulkhead._forward_request.on_complete", "event_time", "time=finish_time", 0);
+  ("happysimulator/components/resilience/circuit_breaker.py", "CircuitBreaker._forward_request.on_complete", "event_time", "time=finish_time", 0);
+  ("happysimulator/components/resilience/fallback.py", "Fallback._forward_to_primary.on_complete", "event_time", "time=finish_time", 0);
+  ("happysimulator/components/resilience/fallback.py", "Fallback._forward_to_fallback.on_complete", "event_time", "time=finish_time", 0);
+  ("happysimulator/components/resilience/hedge.py", "Hedge._create_request_event.on_complete", "event_time", "time=finish_time", 0);
+  ("happysimulator/components/resilience/timeout.py", "TimeoutWrapper._forward_request.on_complete", "event_time", "time=finish_time", 0);
+  ("happysimulator/components/scheduling/job_scheduler.py", "JobScheduler._run_tick.on_complete", "event_time", "time=finish_time", 0);
+  ("happysimulator/components/server/async_server.py", "AsyncServer._on_cpu_complete", "stale_now", "events in 'result_events' stamped in the enclosing function, emitted by nested generator io_wrapper after a yield", 0);
+  ("happysimulator/faults/network_faults.py", "InjectLatency.generate_events", "event_time", "time=Instant.from_seconds(self.start)", 0);
+  ("happysimulator/faults/network_faults.py", "InjectLatency.generate_events", "event_time", "time=Instant.from_seconds(self.end)", 0);
+  ("happysimulator/faults/network_faults.py", "InjectPacketLoss.generate_events", "event_time", "time=Instant.from_seconds(self.start)", 0);
+  ("happysimulator/faults/network_faults.py", "InjectPacketLoss.generate_events", "event_time", "time=Instant.from_seconds(self.end)", 0);
+  ("happysimulator/faults/network_faults.py", "NetworkPartition.generate_events", "event_time", "time=Instant.from_seconds(self.start)", 0);
+  ("happysimulator/faults/network_faults.py", "NetworkPartition.generate_events", "event_time", "time=Instant.from_seconds(self.end)", 0);
+  ("happysimulator/faults/network_faults.py", "RandomPartition.generate_events.schedule_fault", "event_time", "time=Instant.from_seconds(at)", 0);
+  ("happysimulator/faults/network_faults.py", "RandomPartition.generate_events.schedule_heal", "event_time", "time=Instant.from_seconds(at)", 0);
+  ("happysimulator/faults/node_faults.py", "CrashNode.generate_events", "event_time", "time=Instant.from_seconds(self.at)", 0);
+  ("happysimulator/faults/node_faults.py", "CrashNode.generate_events", "event_time", "time=Instant.from_seconds(self.restart_at)", 0);
+  ("happysimulator/faults/node_faults.py", "PauseNode.generate_events", "event_time", "time=Instant.from_seconds(self.start)", 0);
+  ("happysimulator/faults/node_faults.py", "PauseNode.generate_events", "event_time", "time=Instant.from_seconds(self.end)", 0);
+  ("happysimulator/faults/resource_faults.py", "ReduceCapacity.generate_events", "event_time", "time=Instant.from_seconds(self.start)", 0);
+  ("happysimulator/faults/resource_faults.py", "ReduceCapacity.generate_events", "event_time", "time=Instant.from_seconds(self.end)", 0);
+  ("happysimulator/load/source.py", "SimpleEventProvider.get_events", "event_time", "time=time", 0);
+  ("happysimulator/load/providers/distributed_field.py", "DistributedFieldProvider.get_events", "event_time", "time=time", 0)
 ].
